@@ -8,7 +8,7 @@ import CpModel.AuthPrims
 
     basic  CHARSETNAME:TEXT CODEC REALM:TEXT STORE:PAIRS HDR:OPT NFC:PAIRS
     digest CHARSETNAME:TEXT CODEC REALM:TEXT KEY:TEXT plain|ha1 STORE:PAIRS METHOD:TEXT NOW:int HDR:OPT
-        → `admit TEXT` | `401 TEXT` | `400` | `500 ValueError|IndexError|TypeError`
+        → `grant TEXT` | `401 TEXT` | `400` | `500 ValueError|IndexError|TypeError`
   primitive cross-checks:
     md5 HEX → HEX      b64 TEXT → `ok HEX` | `err`      utf8 HEX → `ok TEXT` | `err`     int TEXT → `N` | int
     strip|upper|lower TEXT → TEXT      parse TEXT → `ok PAIRS` | `ValueError` | `IndexError`
@@ -42,7 +42,7 @@ def showExc : Exc → String
   | .valueError => "ValueError" | .indexError => "IndexError" | .typeError => "TypeError"
 
 def showOutcome : Outcome → String
-  | .admit u => "admit " ++ Proto.text u
+  | .grant u => "grant " ++ Proto.text u
   | .unauthorized c => "401 " ++ Proto.text c
   | .badRequest => "400"
   | .error e => "500 " ++ showExc e
